@@ -420,6 +420,11 @@ def run(ctx, res):
                           "draws": [{"ddt": f2b(a), "dd": f2b(b), "ks": [f2b(x) for x in (ks if len(ks) == len(d["j_model"]) else ks * len(d["j_model"]))]}
                                     for a, b, ks in draws]})
             meta.append(("report", case, out))
+        if out.get("disp") and len(out["disp"]) == cfg["num_distribution_draws"] <= 12 and out.get("dist") is not None:      # (the model's Fin-indexed sums are cubic in N when interpreted)
+            # the model builds the report from the drawn (gamma, lambda, kappa) with its own displacement (floor included)
+            lines.append({"op": "C14.ddtdd_draws", "ddt0": f2b(float(out["dist"][0])), "dd0": f2b(float(out["dist"][1])),
+                          "draws": [[f2b(g_), f2b(l_), f2b(k_)] for g_, l_, k_ in out["disp"]]})
+            meta.append(("ddtdd_draws", case, out))
         if case["ltype"] in ("DdtHist", "DdtHistKDE", "DdtHistKin") and out.get("ddt_meas") is not None:
             sm = np.asarray(d["ddt_samples"], dtype=float)
             wt = d.get("ddt_weights")
@@ -451,6 +456,14 @@ def run(ctx, res):
         if kind == "chi2":
             if not close(b2f(m["chi2"]), out, 1e-10):
                 res.disagree("reduced chi2: model %r impl %r" % (b2f(m["chi2"]), out), cj)
+            continue
+        if kind == "ddtdd_draws":
+            have = [float(np.squeeze(v)) for v in out["ddt_dd"]]
+            want = [b2f(m[k_]) for k_ in ("ddt_mean", "ddt_std", "dd_mean", "dd_std")]
+            sc = [abs(float(out["dist"][0]))] * 2 + [abs(float(out["dist"][1]))] * 2
+            if not all(abs(a_ - b_) <= 1e-9 * max(s_, 1e-300) for a_, b_, s_ in zip(have, want, sc)):
+                res.disagree("ddt_dd_model_prediction: model (displacement of the %d drawn parameter sets, then moments) %r impl %r"
+                             % (len(out["disp"]), want, have), cj)
             continue
         if kind == "ddt_meas":
             dm = out["ddt_meas"]
